@@ -2,15 +2,31 @@
 Model of `CAMTransmissionManagement` (facilities/ca_basic_service/cam_transmission_management.py).
 
 State = the fields of the Python object.  Times are the integer milliseconds the code computes with
-(`now_ms = int(TimeService.time()*1000)`), headings are in 0.01 degree, speeds in mm/s, the haversine
-distance of the cached report to the last CAM position is an input of `check` (millimetres, computed by the
-harness's independent oracle), a failing `_send_cam` (Annex B.2.5) is an input bit.
-`armed` = a T_CheckCamGen timer is pending.
+(`now_ms = int(TimeService.time()*1000)`), headings are in 0.01 degree, speeds in mm/s, positions are
+(lat, lon) in 1e-7 degree.  The model is parametric in the distance function `hav` (the code's `_haversine_m`,
+result in millimetres): every theorem holds for EVERY `hav`; the reference position it is applied to
+(`lastPos` = position lastly included in a CAM) is model state.
+
+Timer: `live` = number of pending (not cancelled, not expired) T_CheckCamGen timers, `tracked` = `self._timer`
+is one of them (so that `stop()` can cancel it), `inflight` (ghost) = expired timers whose callback has not run yet.
+`expire` = a timer's wait completes, `check` = the callback `_check_cam_conditions` runs.  A `stop` (and `start`)
+between the two is the race "stop() while an expiry is in flight": `threading.Timer.cancel()` cannot stop it.
+
+Failure injection: where the generation of a due CAM fails (`Fail`): while the PDU is filled from the report
+(outside the Annex B.2.5 `try`: the exception leaves the callback, the `finally` re-arms the timer), in the coder,
+in the BTP request (both inside the `try`: skipped), or in the LDM feed AFTER the BTP request.
+
+Variant flags (probed on the real code at run time, regenerated structurally in Generated/FacFlow.lean):
+`ldmIsolated`  = a failing LDM feed does not abort the bookkeeping of the transmitted CAM (repaired; fixes/C10-cam-ldm-failure),
+`restartHold`  = T_GenCamMin is also kept across a stop()/start() cycle (repaired; fixes/C10-cam-restart-min-gap).
 -/
 import Generated.FacConstants
+import Generated.FacFlow
 
 namespace FlexModel.Fac.Cam
 open Generated.Fac
+
+abbrev Pos := Int × Int
 
 /-- a position report as the transmission management sees it -/
 structure Tpv where
@@ -18,31 +34,49 @@ structure Tpv where
   its : Option Nat         -- ITS timestamp [ms] of the report's `time` (none: no `time` key)
   heading : Option Nat     -- `track`  [0.01 deg]
   speed : Option Nat       -- `speed`  [mm/s]
-  hasPos : Bool            -- `lat` and `lon` present
+  pos : Option Pos         -- `lat`,`lon` [1e-7 deg] (none: one of them missing)
   deriving Repr, DecidableEq, Inhabited
 
-/-- static vehicle data that influences container inclusion -/
+/-- static vehicle data that influences container inclusion, and the variant flags -/
 structure Cfg where
   role : Nat := 0              -- VehicleData.vehicle_role
   twoWheeler : Bool := false   -- station_type ∈ {2,3,4}
   hasSpecialData : Bool := false
+  ldmIsolated : Bool := true
+  restartHold : Bool := true
   deriving Repr, DecidableEq, Inhabited
+
+/-- where the generation of a due CAM fails -/
+inductive Fail
+  | none | build | encode | btp | ldm
+  deriving Repr, DecidableEq, Inhabited
+
+/-- the CAM reaches the BTP router -/
+def Fail.transmitted : Fail → Bool
+  | .none => true | .ldm => true | _ => false
+
+/-- `_update_send_state` runs -/
+def Fail.bookkept (c : Cfg) : Fail → Bool
+  | .none => true | .ldm => c.ldmIsolated | _ => false
 
 structure State where
   cfg : Cfg := {}
   active : Bool := false
-  armed : Bool := false
+  live : Nat := 0
+  tracked : Bool := false
+  inflight : Nat := 0
   tGenCam : Nat := T_GEN_CAM_MAX
   nGenCam : Nat := 0
   lastCamTime : Option Nat := none
   lastHeading : Option Nat := none
-  lastHasPos : Bool := false
+  lastPos : Option Pos := none
   lastSpeed : Option Nat := none
   camCount : Nat := 0
   lastLf : Option Nat := none
   lastVlf : Option Nat := none
   lastSpecial : Option Nat := none
   cur : Option Tpv := none
+  holdUntil : Option Nat := none     -- `_restart_hold_until_ms`
   deriving Repr, DecidableEq, Inhabited
 
 /-- an emitted CAM, as far as C10 observes it -/
@@ -61,7 +95,8 @@ inductive Op
   | start
   | stop
   | report (r : Tpv)
-  | check (now dist : Nat) (sendOk : Bool)
+  | expire (tracked : Bool)            -- a timer's wait completes (`tracked`: it is `self._timer`)
+  | check (now : Nat) (fail : Fail)    -- the callback runs
   deriving Repr, DecidableEq, Inhabited
 
 def absDiff (a b : Nat) : Nat := if a ≥ b then a - b else b - a
@@ -72,24 +107,31 @@ def headingDiff (a b : Nat) : Nat :=
   if d > CAM_HEADING_WRAP_CDEG then 36000 - d else d
 
 /-- `_check_dynamics` -/
-def dynamics (s : State) (r : Tpv) (dist : Nat) : Bool :=
+def dynamics (hav : Pos → Pos → Nat) (s : State) (r : Tpv) : Bool :=
   match s.lastHeading with
   | none => true
   | some lh =>
     (match r.heading with
      | some h => decide (headingDiff h lh > CAM_HEADING_THRESHOLD_CDEG)
      | none => false)
-    || (r.hasPos && s.lastHasPos && decide (dist > CAM_POS_THRESHOLD_MM))
+    || (match r.pos, s.lastPos with
+        | some p, some q => decide (hav q p > CAM_POS_THRESHOLD_MM)
+        | _, _ => false)
     || (match r.speed, s.lastSpeed with
         | some v, some w => decide (absDiff v w > CAM_SPEED_THRESHOLD_MMS)
         | _, _ => false)
 
+/-- the first CAM of an activation is held back while less than T_GenCamMin has passed since the last CAM of the
+previous activation (repaired variant only) -/
+def held (s : State) (now : Nat) : Bool :=
+  s.cfg.restartHold && (match s.holdUntil with | some h => decide (now < h) | none => false)
+
 /-- which condition of `_evaluate_and_maybe_send` fires (none: no CAM at this check) -/
-def trigger (s : State) (r : Tpv) (now dist : Nat) : Option Nat :=
+def trigger (hav : Pos → Pos → Nat) (s : State) (r : Tpv) (now : Nat) : Option Nat :=
   match s.lastCamTime with
-  | none => some 1
+  | none => if held s now then none else some 1
   | some t =>
-    if now ≥ t + T_GEN_CAM_DCC ∧ dynamics s r dist = true then some 1
+    if now ≥ t + T_GEN_CAM_DCC ∧ dynamics hav s r = true then some 1
     else if now ≥ t + s.tGenCam ∧ now ≥ t + T_GEN_CAM_DCC then some 2
     else none
 
@@ -123,7 +165,7 @@ def afterSend (s : State) (r : Tpv) (now cond : Nat) (lf sp vlf : Bool) : State 
     tGenCam := tg, nGenCam := ng,
     lastCamTime := some now,
     lastHeading := match r.heading with | some h => some h | none => s.lastHeading,
-    lastHasPos := r.hasPos || s.lastHasPos,
+    lastPos := match r.pos with | some p => some p | none => s.lastPos,
     lastSpeed := match r.speed with | some v => some v | none => s.lastSpeed,
     lastLf := if lf then some now else s.lastLf,
     lastSpecial := if sp then some now else s.lastSpecial,
@@ -132,33 +174,46 @@ def afterSend (s : State) (r : Tpv) (now cond : Nat) (lf sp vlf : Bool) : State 
 
 def gdtOf (r : Tpv) : Nat := match r.its with | some ts => ts % 65536 | none => 0
 
-/-- `_check_cam_conditions` (timer expiry) -/
-def check (s : State) (now dist : Nat) (sendOk : Bool) : State × Option CamOut :=
-  if !s.active then (s, none)
+/-- the CAM `_generate_and_send_cam` builds in state `s` from report `r` -/
+def camOf (s : State) (r : Tpv) (now cond : Nat) : CamOut :=
+  let lf := includeLf s now
+  let sp := includeSpecial s now
+  { t := now, cond := cond, lf := lf, special := sp && s.cfg.hasSpecialData, vlf := includeVlf s now lf sp,
+    tw := s.cfg.twoWheeler, gdt := gdtOf r, rid := r.rid }
+
+/-- `_schedule_next_check()` at the end of a callback that found the service active -/
+def rearm (s : State) : State := { s with live := s.live + 1, tracked := true }
+
+/-- `_check_cam_conditions` (the callback of an expired timer) -/
+def check (hav : Pos → Pos → Nat) (s : State) (now : Nat) (f : Fail) : State × Option CamOut :=
+  let s0 := { s with inflight := s.inflight - 1 }
+  if Generated.FacFlow.CAM_CHECK_GUARDED && !s.active then (s0, none)   -- `if not self._active: return` (regenerated fact)
   else
-    let s1 := { s with armed := true }       -- `finally: self._schedule_next_check()`
+    let s1 := rearm s0                        -- `finally: self._schedule_next_check()`
     match s.cur with
     | none => (s1, none)
     | some r =>
-      match trigger s r now dist with
+      match trigger hav s r now with
       | none => (s1, none)
       | some cond =>
-        let lf := includeLf s now
-        let sp := includeSpecial s now
-        let vlf := includeVlf s now lf sp
-        if sendOk then
-          (afterSend s1 r now cond lf sp vlf,
-           some { t := now, cond := cond, lf := lf, special := sp && s.cfg.hasSpecialData, vlf := vlf,
-                  tw := s.cfg.twoWheeler, gdt := gdtOf r, rid := r.rid })
+        let c := camOf s r now cond
+        if f.transmitted then
+          if f.bookkept s.cfg then
+            (afterSend s1 r now cond c.lf (includeSpecial s now) c.vlf, some c)
+          else (s1, some c)
         else (s1, none)
 
-def step (s : State) : Op → State × Option CamOut
+def step (hav : Pos → Pos → Nat) (s : State) : Op → State × Option CamOut
   | .start =>
     if s.active then (s, none)
-    else ({ cfg := s.cfg, cur := s.cur, active := true, armed := true }, none)
-  | .stop => ({ s with active := false, armed := false }, none)
+    else ({ cfg := s.cfg, cur := s.cur, active := true, live := s.live + 1, tracked := true, inflight := s.inflight,
+            holdUntil := match s.lastCamTime with
+                         | some t => some (t + T_GEN_CAM_MIN)
+                         | none => s.holdUntil }, none)
+  | .stop => ({ s with active := false, live := if s.tracked then s.live - 1 else s.live, tracked := false }, none)
   | .report r => ({ s with cur := some r }, none)
-  | .check now dist ok => check s now dist ok
+  | .expire tr => ({ s with live := s.live - 1, inflight := s.inflight + 1, tracked := s.tracked && !tr }, none)
+  | .check now f => check hav s now f
 
 def init (cfg : Cfg := {}) : State := { cfg := cfg }
 
